@@ -474,8 +474,9 @@ func (r *runner) replay(raw json.RawMessage) error {
 		return err
 	}
 	r.w.Begin(0, func() interface{} { return c })
-	for i := range r.targets {
-		t := r.targets[i]
+	all := r.targets
+	for i := range all {
+		t := all[i]
 		if c.Target != "*" && c.Target != "oracle" && t.Name != c.Target {
 			continue
 		}
@@ -484,5 +485,6 @@ func (r *runner) replay(raw json.RawMessage) error {
 		r.targets = []Target{t}
 		r.check("R", in, false)
 	}
+	r.targets = all
 	return nil
 }
